@@ -214,6 +214,37 @@ def run(ctx):
             ctx.proof_broken("correspondence:" + key, json.dumps({k: v for k, v in res.items() if k in ("trace", "lean")}),
                              "the built document still equals the specification on all %d models" % len(cases))
         reported += 1
+    # -- decoys: elements the abstract model does not describe must leave everything it does describe untouched -----------------
+    # a dynamic template WITH parameters (declared by `dynamic D(..);`, defined before the first ordinary template): its parameters
+    # belong to it alone
+    dec_ids = ids[::max(1, len(ids) // (200 if not ctx.thorough else 2000))]
+    frames = []
+    for c in dec_ids:
+        xml = cases[c][1]
+        if "</declaration>" not in xml or "<template" not in xml:
+            continue
+        de = xml.index("</declaration>")
+        x2 = xml[:de] + "\ndynamic DynW(const int dw1, const bool dw2);" + xml[de:]
+        ft = x2.index("<template")
+        x2 = (x2[:ft] + '<template><name>DynW</name><parameter>const int dw1, const bool dw2</parameter><location id="dynw0"><name>DW0</name>'
+              '</location><init ref="dynw0"/></template>\n' + x2[ft:])
+        frames += [(c + "/plain", m.frame("xml", c + "/plain", xml)), (c + "/decoy", m.frame("xml", c + "/decoy", x2))]
+    dblocks, dcrashed = m.run_batches(R.exe, [], frames)
+    ndec = 0
+    for c in dec_ids:
+        a, b_ = dblocks.get(c + "/plain"), dblocks.get(c + "/decoy")
+        if a is None or b_ is None:
+            continue
+        ndec += 1
+        da = [l for l in a if not l.startswith(("TRACE", "VERDICT", "BEGIN", "END"))]
+        db = [l for l in b_ if not l.startswith(("TRACE", "VERDICT", "BEGIN", "END"))]
+        if da != db:
+            diff = [(x, y) for x, y in zip(da, db) if x != y][:2] or [("(%d lines)" % len(da), "(%d lines)" % len(db))]
+            ctx.finding("doc:decoy/dynamic-template-parameters", "a dynamic template with parameters in front of the other templates changes them: %r" % (diff,),
+                        {"entry": "parse_XML_buffer(buf, Document*, newxta=true)", "xml": [f for k, f in frames if k == c + "/decoy"][0][-6000:],
+                         "plain_dump": da[:60], "decoy_dump": db[:60]})
+            break
+    cov["decoy_pairs"] = ndec
     # -- exception shapes / witnesses ------------------------------------------------------------------------
     probes = {"rate_first": RATE_FIRST_XML, "inv_first": INV_FIRST_XML, "comment": COMMENT_XML}
     blocks, crashed = m.run_batches(R.exe, [], [(k, m.frame("xml", k, v)) for k, v in probes.items()], nproc=1)
